@@ -156,6 +156,71 @@ Proof.
       rewrite app_assoc, Hw1. reflexivity.
 Qed.
 
+(* BufWriter::write (a single, possibly short, write) *)
+Lemma firstn_min : forall k (l : bytes), firstn (Nat.min k (length l)) l = firstn k l.
+Proof.
+  intros k l. destruct (Nat.le_ge_cases k (length l)) as [H|H].
+  - rewrite Nat.min_l by exact H. reflexivity.
+  - rewrite Nat.min_r by exact H. rewrite firstn_all, firstn_all2 by exact H. reflexivity.
+Qed.
+
+Lemma raw_write_spec : forall o dk d n dk' o',
+    raw_write o dk d = (Some n, dk', o') -> n <= length d /\ dk' = dk ++ firstn n d.
+Proof.
+  intros o dk d n dk' o' H. unfold raw_write in H. destruct d as [|x d].
+  - inversion H; subst. cbn. rewrite app_nil_r. auto.
+  - destruct o as [|[k|] o].
+    + inversion H; subst. split; [apply Nat.le_refl|]. f_equal. symmetry.
+      exact (firstn_all (x :: d)).
+    + inversion H; subst. split; [apply Nat.le_min_r|]. f_equal. symmetry.
+      exact (firstn_min k (x :: d)).
+    + discriminate.
+Qed.
+
+Lemma bw_write_spec : forall c d st r st',
+    bw_write c d st = (r, st') ->
+    match r with
+    | Some n => n <= length d /\ ext (firstn n d) true st st'
+    | None => ext [] false st st'
+    end.
+Proof.
+  intros c d st r st' H. unfold bw_write in H.
+  destruct (length d <? spare c st) eqn:Hfast.
+  - inversion H; subst. rewrite firstn_all. split; [reflexivity|apply push_ext].
+  - destruct (if spare c st <? length d then flush_buf st else (true, st)) as [ok1 st1] eqn:Hpre.
+    pose proof (preflush_spec _ _ _ _ Hpre) as (w1 & Hd1 & Hw1 & Hfl & Hnofl).
+    destruct ok1; cbn [negb] in H.
+    2:{ inversion H; subst. exists w1, (buf st'). rewrite app_nil_r. repeat split; auto; discriminate. }
+    destruct (c <=? length d) eqn:Hbig.
+    + destruct (raw_write (orc st1) (disk st1) d) as [[r0 dk] o] eqn:Hrw.
+      inversion H; subst r0 st'. clear H.
+      assert (Hcase : buf st1 = [] \/ d = []).
+      { destruct (spare c st <? length d) eqn:Hsp.
+        - left. apply Hfl; reflexivity.
+        - destruct (Hnofl eq_refl) as [-> _].
+          apply Nat.ltb_ge in Hfast. apply Nat.ltb_ge in Hsp. apply Nat.leb_le in Hbig.
+          unfold spare in *.
+          destruct (buf st) as [|b0 bs]; [left; reflexivity|right].
+          destruct d as [|x d]; [reflexivity|]. cbn [length] in *. lia. }
+      destruct r as [n|].
+      * apply raw_write_spec in Hrw. destruct Hrw as [Hn Hdk]. split; [exact Hn|].
+        destruct Hcase as [Hb | Hd0].
+        -- exists (w1 ++ firstn n d), []. cbn [disk buf]. repeat split.
+           ++ rewrite Hdk, Hd1, app_assoc. reflexivity.
+           ++ rewrite app_nil_r, <- Hw1, Hb, app_nil_r. reflexivity.
+           ++ intros _. exact Hb.
+        -- subst d. destruct n; [|cbn [length] in Hn; lia]. cbn [firstn] in *.
+           rewrite app_nil_r in Hdk. exists w1, (buf st1). cbn [disk buf]. rewrite app_nil_r.
+           repeat split; auto. rewrite Hdk. exact Hd1.
+      * assert (Hdk : dk = disk st1).
+        { unfold raw_write in Hrw. destruct d as [|x d]; [discriminate|].
+          destruct (orc st1) as [|[k|] o1]; inversion Hrw; subst; reflexivity. }
+        subst dk. exists w1, (buf st1). cbn [disk buf]. rewrite app_nil_r.
+        repeat split; auto; discriminate.
+    + inversion H; subst. rewrite firstn_all. split; [reflexivity|]. cbn [push disk buf].
+      exists w1, (buf st1 ++ d). repeat split; auto. rewrite app_assoc, Hw1. reflexivity.
+Qed.
+
 Lemma act_res_ext : forall c a st ok st',
     act_res c a st = (ok, st') -> ext (act_bytes a) ok st st'.
 Proof.
@@ -371,6 +436,16 @@ Lemma appends_snoc : forall c rs r st,
     appends c st (rs ++ [r]) = res_state (append c (appends c st rs) r).
 Proof. induction rs as [|x rs IH]; intros r st; cbn [appends app]; [reflexivity|apply IH]. Qed.
 
+(* the buffer capacity does not influence what ends up in the file *)
+Lemma capacity_irrelevant : forall c1 c2 rs st,
+    orc_ok (orc st) = true -> buf st = [] ->
+    disk (appends c1 st rs) = disk (appends c2 st rs).
+Proof.
+  intros c1 c2 rs st Hok Hb.
+  destruct (appends_history c1 rs st Hok Hb) as [-> _].
+  destruct (appends_history c2 rs st Hok Hb) as [-> _]. reflexivity.
+Qed.
+
 (* ---------------- open modes ---------------- *)
 
 Lemma open_modes : forall a pre o,
@@ -471,8 +546,9 @@ Section Concurrent.
     split; [|split; [exact Hb|split]].
     - rewrite Hd, Hd0, !map_map. reflexivity.
     - rewrite Hacq, map_map. reflexivity.
-    - intro i. exists (length (proj i done)).
+    - intro i.
       destruct (proj_prefix act (thread_progs recs) done (rem i) i (Hproj i)) as [Hp Hr].
+      set (k := length (proj i done)) in *. exists k.
       split.
       + rewrite filter_tag_unblock, Hp. unfold thread_progs.
         rewrite firstn_map', map_map.
@@ -511,7 +587,7 @@ Section Concurrent.
                                /\ pre0 ++ post = block_of cur).
     { rewrite Hrem in Hr. unfold thread_progs in Hr. rewrite skipn_map' in Hr.
       destruct (skipn (length (proj t done)) (recs t)) as [|cur more] eqn:Hsk; [discriminate|].
-      cbn [map] in Hr. inversion Hr as [[Hblk _]]. exists cur. split; [|exact Hblk].
+      cbn [map] in Hr. injection Hr as Hblk _. exists cur. split; [|exact Hblk].
       rewrite <- (firstn_skipn (length (proj t done)) (recs t)), Hsk.
       assert (Hlen : length (firstn (length (proj t done)) (recs t)) = length (proj t done)).
       { rewrite Hp at 2. unfold thread_progs. rewrite firstn_map', map_length. reflexivity. }
@@ -527,8 +603,9 @@ Section Concurrent.
       rewrite <- (map_length snd (filter _ (map tag_unblock done))), filter_tag_unblock, map_length.
       reflexivity.
     - rewrite Hacq, map_map. reflexivity.
-    - intro i. exists (length (proj i done)).
+    - intro i.
       destruct (proj_prefix act (thread_progs recs) done (rem i) i (Hproj i)) as [Hpi _].
+      set (k := length (proj i done)) in *. exists k.
       rewrite filter_tag_unblock, Hpi. unfold thread_progs.
       rewrite firstn_map', map_map.
       erewrite map_ext; [apply map_id|]. intro r0. apply unblock_block.
